@@ -116,7 +116,10 @@ def coq_list(xs, f):
 # ---------------------------------------------------------------- Coq build
 def coq_files_all():
     out = []
-    for d in ("Common", "Model", "Proofs", "Props"):
+    dirs = ("Common", "Model", "Proofs", "Props")
+    if os.environ.get("C39_VARIANT") == "pinned":
+        dirs += ("Archive",)      # refutations of the pinned code; compile only against the pinned tree's tables
+    for d in dirs:
         out += sorted(glob.glob(os.path.join(COQ, d, "*.v")))
     return [os.path.relpath(p, COQ) for p in out]
 
